@@ -31,6 +31,68 @@ func c04StripPos(out string) string {
 	return out
 }
 
+// ---- fail fast for endless families
+
+const c04Limit = 5 * time.Second
+const c04HangFile = "c04-hung-families"
+
+var c04Family string
+
+func c04FamilyHung(kind string) bool {
+	b, err := os.ReadFile(c04HangFile)
+	if err != nil {
+		return false
+	}
+	for _, l := range strings.Split(string(b), "\n") {
+		if l == kind {
+			return true
+		}
+	}
+	return false
+}
+
+// c04Run runs one case; when it exceeds the limit the family is recorded and the goroutine blocks,
+// so that the time limit of the harness main loop (one second later) reports HANG and restarts.
+func c04Run(payload string) string {
+	if payload == "skip" {
+		return "SKIP"
+	}
+	mult := 1
+	for i, a := range os.Args {
+		if a == "-tmult" && i+1 < len(os.Args) {
+			fmt.Sscanf(os.Args[i+1], "%d", &mult)
+		}
+	}
+	type res struct {
+		s string
+		p interface{}
+	}
+	ch := make(chan res, 1)
+	go func() {
+		defer func() {
+			if e := recover(); e != nil {
+				ch <- res{"", e}
+			}
+		}()
+		ch <- res{c04StripPos(evRunFull(payload)), nil}
+	}()
+	select {
+	case r := <-ch:
+		if r.p != nil {
+			panic(r.p)
+		}
+		return r.s
+	case <-time.After(c04Limit * time.Duration(mult)):
+		if mult == 1 && c04Family != "" {
+			if f, err := os.OpenFile(c04HangFile, os.O_APPEND|os.O_CREATE|os.O_WRONLY, 0644); err == nil {
+				f.WriteString(c04Family + "\n")
+				f.Close()
+			}
+		}
+		select {} // the harness main loop reports HANG
+	}
+}
+
 var c04Exits = []struct{ name, code string }{
 	{"fallthrough", "x.mark(11)"},
 	{"break", "break"},
@@ -228,13 +290,21 @@ func (g *c04Rand) program(depth int) string {
 
 func init() {
 	register("C04", &Prop{
-		Timeout: 6 * time.Second,
+		Timeout: c04Limit + time.Second,
 		Setup:   evSetup,
 		Gen: func(g *Gen) {
 			lz := NewEvLazy(g)
 			emit := func(kind, src string) {
 				g.Count(kind)
-				lz.Emit(func() string { return evPayload(src) })
+				// fail fast: after a case of a family exceeded its time limit (recorded by c04Run in a file
+				// shared by all shards) the rest of that family is not run any more — on a broken tree whole
+				// families can be endless; on the tree as it is nothing hangs and nothing is skipped
+				if c04FamilyHung(kind) {
+					g.Count("skipped after a HANG in the family")
+					lz.Emit(func() string { return "skip" })
+					return
+				}
+				lz.Emit(func() string { c04Family = kind; return evPayload(src) })
 			}
 			// (0) corpus: inputs of the repaired defects and directed cases
 			for _, s := range []string{
@@ -557,7 +627,7 @@ func init() {
 				}
 			}
 		},
-		Run: func(payload string) string { return c04StripPos(evRunFull(payload)) },
+		Run: c04Run,
 		// harness C04 -tool payload <source-hex>: the payload (tree of the real parser) of one program
 		Tool: func(args []string) int {
 			if len(args) == 2 && args[0] == "payload" {
